@@ -535,7 +535,8 @@ func checkAbs(c AbsCase) vk.Verdict {
 	clockMu.Lock()
 	defer clockMu.Unlock()
 	vk.SetNow(4_000_000)
-	cfg := session.Config{IdleTimeout: 500 * time.Millisecond, AbsoluteTimeout: absTimeout, Storage: vk.NewStorage(), KeyGenerator: func() string {
+	absStore := vk.NewStorage()
+	cfg := session.Config{IdleTimeout: 500 * time.Millisecond, AbsoluteTimeout: absTimeout, Storage: absStore, KeyGenerator: func() string {
 		ctr++
 		id := fmt.Sprintf("abs-%d", ctr)
 		issued[id] = true
@@ -552,6 +553,13 @@ func checkAbs(c AbsCase) vk.Verdict {
 			switch op {
 			case "set":
 				sess.Set("a", fmt.Sprintf("v%d_%d", step, j))
+			case "resetfault":
+				// Reset while the storage refuses the Delete: the call fails; whatever it leaves behind is still a session
+				// with the absolute deadline it had
+				absStore.FailNextDelete()
+				if err := sess.Reset(); err == nil {
+					herr = "Reset() succeeded although the storage refused the Delete"
+				}
 			case "clear":
 				// "empty the session": delete every key the session reports
 				for _, k := range sess.Keys() {
@@ -671,6 +679,8 @@ func checkAbs(c AbsCase) vk.Verdict {
 			switch op {
 			case "set":
 				m.a = fmt.Sprintf("v%d_%d", i, j)
+			case "resetfault":
+				m.a = "?" // what is left of the data is not determined (a set follows at once); same session, same deadline
 			case "clear":
 				m.a = "" // the data is gone; it is still the same session with the same deadline
 			case "reset":
@@ -730,7 +740,11 @@ var propAbs = vk.Register(&vk.Prop[AbsCase]{Property: property, Name: "absolute"
 				if j == 0 {
 					pool = []string{"set", "reget", "reget", "reset", "regen", "clear"} // reget only counts as the first operation
 				}
-				st.Ops = append(st.Ops, rapid.SampledFrom(pool).Draw(t, "op"))
+				op := rapid.SampledFrom(pool).Draw(t, "op")
+				if op == "set" && rapid.IntRange(0, 5).Draw(t, "resetfault") == 0 {
+					st.Ops = append(st.Ops, "resetfault") // a failing Reset, then the data is set again
+				}
+				st.Ops = append(st.Ops, op)
 			}
 			c.Steps = append(c.Steps, st)
 		}
